@@ -48,9 +48,9 @@ func run(c *mon.Case) {
 	// ---- base layer
 	baseSh := memchk.NewShadow(nil)
 	var baseMem memory.Memory
-	kind := []string{"bytes", "sparse-const", "sparse-symbolic"}[r.Intn(3)]
+	kind := []string{"bytes", "sparse-const", "sparse-symbolic", "overlay"}[r.Intn(4)]
 	switch kind {
-	case "bytes":
+	case "bytes", "overlay":
 		var blocks []memory.ByteBlock
 		occupied := map[uint64]bool{}
 		for i, n := 0, 1+r.Intn(5); i < n; i++ {
@@ -77,6 +77,23 @@ func run(c *mon.Case) {
 			return
 		}
 		baseMem = m
+		if kind == "overlay" {
+			// the base is itself a layered memory (three levels in total), written
+			// through its own Store before it becomes a base
+			inner := memory.NewOverlay(m, memory.NewSparse())
+			for i, n := 0, 1+r.Intn(4); i < n; i++ {
+				addr := base + uint64(r.Intn(win))
+				w := int(gen.SmallWidth(r))
+				var ex expr.Expr = gen.Const(r, expr.Width(w))
+				if r.Intn(2) == 0 {
+					ex = g.Expr(2)
+				}
+				inner.Store(model.Addr(addr), ex, expr.Width(w))
+				baseSh.Store(addr, ex, w)
+				hist = append(hist, fmt.Sprintf("base-overlay-store(%#x,%s,%d)", addr, clip(refir.String(ex)), w))
+			}
+			baseMem = inner
+		}
 	default:
 		m := memory.NewSparse()
 		for i, n := 0, 1+r.Intn(6); i < n; i++ {
@@ -97,7 +114,20 @@ func run(c *mon.Case) {
 
 	// ---- overlay
 	sh := memchk.NewShadow(baseSh)
-	ov := memory.NewOverlay(baseMem, memory.NewSparse())
+	upper := memory.NewSparse()
+	if r.Intn(4) == 0 {
+		// an upper layer that already holds values when the layered memory is built
+		for i, n := 0, 1+r.Intn(3); i < n; i++ {
+			addr := base + uint64(r.Intn(win))
+			w := int(gen.SmallWidth(r))
+			var ex expr.Expr = gen.Const(r, expr.Width(w))
+			upper.Store(model.Addr(addr), ex, expr.Width(w))
+			sh.Store(addr, ex, w)
+			hist = append(hist, fmt.Sprintf("upper-prestore(%#x,%s,%d)", addr, clip(refir.String(ex)), w))
+		}
+		c.Count("prepopulated_upper_layers", 1)
+	}
+	ov := memory.NewOverlay(baseMem, upper)
 	k := &memchk.Checker{C: c, Prefix: "C16", Mem: ov, Sh: sh, Envs: envs, Hist: &hist, Feat: feat}
 	probes := 6
 	if !c.Quick() {
@@ -199,7 +229,7 @@ func run(c *mon.Case) {
 func main() {
 	mon.Main(mon.Spec{
 		Prop: "C16",
-		Rule: "case = base memory (Bytes / Sparse with constants / Sparse with symbolic values) + history of 30 stores/loads/missing queries on an Overlay whose upper layer is a Sparse memory, over a 48-byte window with small writes so that reads see several gaps in both layers; non-trivial = history with a successful load combining >=2 stored values or both layers",
+		Rule: "case = base memory (Bytes / Sparse with constants / Sparse with symbolic values / itself an Overlay(Bytes,Sparse) written through its own Store) + a quarter of the upper layers already holding values + history of 30 stores/loads/missing queries on an Overlay whose upper layer is a Sparse memory, over a 48-byte window with small writes so that reads see several gaps in both layers; non-trivial = history with a successful load combining >=2 stored values or both layers",
 		Explanation: "oracle: two shadow byte maps (upper over base); load ok iff every byte is in some layer, value = upper byte if written else base byte on 5 valuations; Missing = bytes in neither layer; Blocks = union; at the end the base memory's Blocks and every byte are re-read and compared with the base shadow (base never modified)",
 		Assumptions: []string{"refir reference evaluator", "upper layer is memory.Sparse (as in cmd/mltwist)"},
 		Cases: func(t string) int {
@@ -214,7 +244,7 @@ func main() {
 			}
 			return 2000
 		},
-		RequiredCounts: []string{"loads_nontrivial", "loads_missing", "stores", "histories_bytes", "histories_sparse-const", "histories_sparse-symbolic"},
+		RequiredCounts: []string{"loads_nontrivial", "loads_missing", "stores", "histories_bytes", "histories_sparse-const", "histories_sparse-symbolic", "histories_overlay", "prepopulated_upper_layers"},
 		Run:            run,
 	})
 }
